@@ -93,10 +93,18 @@ func main() {
 						r.Cap("unit abandoned, not decided: " + fb.Error())
 						return
 					}
-					// A panic escaping a unit is a harness error (implementation panics
-					// are caught by the harness and judged there).
+					// A panic escaping a unit is a harness error (implementation panics are caught by the harness and
+					// judged there): typically harness code tripping over a result of an unexpected shape. The rest of
+					// the unit is not decided; what it recorded so far stands. VERIF_STRICT=1 makes it fatal (for
+					// developing the harness).
 					fmt.Fprintf(os.Stderr, "HARNESS-PANIC unit=%s: %v\n%s\n", u.Name, e, debug.Stack())
-					os.Exit(3)
+					if os.Getenv("VERIF_STRICT") != "" {
+						os.Exit(3)
+					}
+					mc.Cur = nil
+					vrand.Enabled, vrand.Bounded, vmap.Enabled = false, false, false
+					r.Cap(fmt.Sprintf("unit abandoned after a panic in harness code, not decided: %v", e))
+					return
 				}
 			}()
 			if u.Procs > 0 && u.Serial {
